@@ -8,6 +8,7 @@ import (
 	"math"
 	"math/rand"
 	"os"
+	"path/filepath"
 	"reflect"
 	"strconv"
 	"strings"
@@ -719,6 +720,30 @@ func c13Dump(c *core.Ctx, dump []byte, src string, allCuts bool, r *rand.Rand) {
 				return
 			}
 		}
+		if cut%5 == 0 {
+			// the interrupted write left a real file behind; it is handed to LoadProg as it is, with an empty name
+			fn := filepath.Join(c.Dir, fmt.Sprintf("c13-cut-%d.bcb", c.Shard))
+			if os.WriteFile(fn, dump[:cut], 0o644) == nil {
+				if f, ferr := os.Open(fn); ferr == nil {
+					var err error
+					var out, lg bytes.Buffer
+					name := []string{"", "", "x.bcb"}[cut/5%3]
+					pan, stack := protect(func() { _, err = bcl.LoadProg(f, name, bcl.OptOutput(&out), bcl.OptLogger(&lg)) })
+					f.Close()
+					c.Eval(1)
+					m := fmt.Sprintf("*os.File, name %q", name)
+					if pan != "" {
+						c.Violation("truncated-panic:"+stripDigits(pan), fmt.Sprintf("LoadProg panicked on a dump cut at byte %d of %d (%s): %s\n%s", cut, len(dump), m, pan, core.Trunc(stack, 700)), det(cut, m))
+						return
+					}
+					if err == nil {
+						c.Violation("truncated-accepted", fmt.Sprintf("LoadProg returned no error for a dump cut at byte %d of %d (%s)", cut, len(dump), m), det(cut, m))
+						return
+					}
+					c.Count("cut_dumps_loaded_from_a_real_file", 1)
+				}
+			}
+		}
 		c.Nontrivial(core.Hash(dump, cut))
 	}
 	if c.WantSample() && len(dump) < 200 {
@@ -772,7 +797,7 @@ func init() {
 		ID:    "C13",
 		Level: "fault_enumeration",
 		Rule: "crash monitor over every interruption point: for each dump, LoadProg of every proper prefix (cut 0..len-1; for dumps > 4000 bytes: first/last 600 bytes, 4096-byte buffer edges and a sample), through a whole-slice reader and a one-byte reader, must return a non-nil error and must not panic; prefixes are also produced the way a crash does (Dump into a writer that fails after k bytes). " +
-			"Plus all 65536 magic values and all 65536 (major, minor) pairs in front of a valid body: accepted iff magic = FC 6C, major = 1, minor <= 1; a valid dump behind 100 kinds of leading junk (shebang lines, comments, blanks, NULs, byte order marks, other headers) must be refused. " +
+			"Plus all 65536 magic values and all 65536 (major, minor) pairs in front of a valid body: accepted iff magic = FC 6C, major = 1, minor <= 1; every fifth cut is also left behind as a real file and loaded from the *os.File with an empty name; a valid dump behind 100 kinds of leading junk (shebang lines, comments, blanks, NULs, byte order marks, other headers) must be refused. " +
 			"distinct = hash(dump, cut); non-trivial = the cut lies inside a dump that loads when complete Load modes: whole slice, one byte per read, whole with disassembly and statistics on, and a bytes.Reader from which a preamble was consumed. Also dumps with more than 65536 line feeds / code bytes and with 5-byte offsets (source beyond 16 MiB).",
 		Assumptions:   []string{"the complete dump loads (checked first; C09 covers it)"},
 		MinNontrivial: 1000,
